@@ -109,6 +109,10 @@ impl ZmtpEngine {
   // the engine invariant, preserved by every handler
   pub open spec fn inv(&self) -> bool {
     &&& all_more(self.partial_batch@)
+    // C07: whichever framer reads the peer's bytes -- the handshake framer, and for a ZMTP/2.0 peer the SAME framer for the whole
+    // connection -- enforces the configured MAXMSGSIZE, and so does the data-phase framer waiting to be activated
+    &&& self.framer.max_size() == self.config.max_msg_size
+    &&& (self.pending_framer matches Some(f) ==> f.max_size() == self.config.max_msg_size)
     &&& (self.version == Some(ZmtpVersion::V2) ==> !self.config.security_enabled)
     &&& (self.phase == ZmtpPhase::Greeting ==> self.version != Some(ZmtpVersion::V2))
     &&& (self.phase == ZmtpPhase::V2Identity ==> self.version == Some(ZmtpVersion::V2))
@@ -119,9 +123,10 @@ impl ZmtpEngine {
     &&& (self.phase == ZmtpPhase::Data ==> self.auth_ok())
     &&& (self.version == Some(ZmtpVersion::V2) ==> pairing_checked(*self.config, self.v2_peer_socket_type))
   }
-  // C04: when a handler returns in the Data phase nothing decodable is left behind in the accumulator
+  // C04: when a handler returns in the Data phase -- or in the Ready phase, where the peer's READY (and data behind it) may have arrived
+  // in the same read as its last security token -- nothing decodable is left behind in the accumulator
   pub open spec fn drained(&self) -> bool {
-    self.phase == ZmtpPhase::Data ==> (self.network_read_accumulator@.len() == 0 || self.framer.would_block(self.network_read_accumulator@))
+    (self.phase == ZmtpPhase::Data || self.phase == ZmtpPhase::Ready) ==> (self.network_read_accumulator@.len() == 0 || self.framer.would_block(self.network_read_accumulator@))
   }
 }
 """
@@ -147,7 +152,7 @@ def handler_post(extra=(), hs_frame=True):
 
 HS_FRAME = ("C05:handshake_flags_frame", "final(self).revision_sent == old(self).revision_sent && final(self).version == old(self).version && final(self).is_server == old(self).is_server && final(self).v2_peer_socket_type == old(self).v2_peer_socket_type")
 
-PD_INV_FRAME = ("self.version == old(self).version && self.config == old(self).config && self.framer.origin_kind() == old(self).framer.origin_kind() "
+PD_INV_FRAME = ("self.version == old(self).version && self.config == old(self).config && self.framer.origin_kind() == old(self).framer.origin_kind() && self.framer.max_size() == old(self).framer.max_size() "
                 "&& self.framer.origin_complete() == old(self).framer.origin_complete() && self.framer.origin_role_server() == old(self).framer.origin_role_server() "
                 "&& self.network_read_accumulator.stream() == old(self).network_read_accumulator.stream()")
 
@@ -213,8 +218,14 @@ parts = [
               ("C06:noop_without_pending", "old(self).pending_framer is None ==> final(self).framer == old(self).framer && final(self).pending_framer is None"),
               ("C06:frame", "final(self).version == old(self).version && final(self).config == old(self).config && final(self).phase == old(self).phase && final(self).partial_batch == old(self).partial_batch "
                             "&& final(self).network_read_accumulator == old(self).network_read_accumulator && final(self).security_mechanism == old(self).security_mechanism")]),
+  # the constructor: a fresh engine satisfies the invariant; in particular its handshake framer carries the configured MAXMSGSIZE
+  Fn(EN, "new", impl=IMPL, emit_impl="impl ZmtpEngine",
+     ensures=[("C02+C04+C05+C06:a_fresh_engine_satisfies_the_invariant", "r.inv()"),
+              ("C07:the_handshake_framer_enforces_the_configured_maxmsgsize", "r.framer.max_size() == config.max_msg_size && r.config == config"),
+              ("C05+C06:starts_in_the_greeting_phase_unauthenticated", "r.phase == ZmtpPhase::Greeting && r.version is None && r.is_server == is_server && r.pending_framer is None && r.network_read_accumulator@.len() == 0")]),
   Fn(EN, "derive_pending_framer", impl=IMPL, emit_impl="impl ZmtpEngine",
      ensures=[HS_FRAME, ("C06:framer_remembers_its_mechanism", "r matches Ok(f) ==> f.origin_kind() == old(self).security_mechanism.kind() && f.origin_complete() == old(self).security_mechanism.complete() && f.origin_role_server() == old(self).security_mechanism.role_server()"),
+              ("C07:the_data_phase_framer_enforces_the_configured_maxmsgsize", "r matches Ok(f) ==> f.max_size() == old(self).config.max_msg_size"),
               ("C06:frame", "final(self).version == old(self).version && final(self).config == old(self).config && final(self).phase == old(self).phase && final(self).partial_batch == old(self).partial_batch "
                             "&& final(self).network_read_accumulator == old(self).network_read_accumulator && final(self).framer == old(self).framer && final(self).pending_framer == old(self).pending_framer")]),
   # READY metadata the endpoint announces (ZMTP/3.x): the Identity property is the configured routing id, present iff it is non-empty
@@ -297,6 +308,7 @@ parts = [
      ],
      loops={0: {
        "invariant": ["self.network_read_accumulator.stream() == old(self).network_read_accumulator.stream()", "n_gated(old(out).app_actions@) > 0 ==> old(self).auth_ok()", "old(self).auth_ok() ==> self.auth_ok()", "self.revision_sent == old(self).revision_sent && self.version == old(self).version && self.is_server == old(self).is_server && self.v2_peer_socket_type == old(self).v2_peer_socket_type", "self.inv()", "self.phase == ZmtpPhase::Ready", "self.config == old(self).config", "out.app_actions@ == old(out).app_actions@"],
+       "ensures": ["self.framer.would_block(self.network_read_accumulator@)"],
        "decreases": "self.framer.budget(self.network_read_accumulator@)"}},
      hints=[("bc", "@loop_start:0", 0, "", "broadcast use lemma_delivered_push, lemma_sends_push, lemma_n_gated_push;"),
             # C05 known finding: the READY handler reports completion without validating the peer's Socket-Type
